@@ -24,6 +24,7 @@ import (
 )
 
 type HarnessCfg struct {
+	Name     string                    `json:"name"` // label (default: func); distinguishes several configurations of one harness
 	Func     string                    `json:"func"`
 	Pkg      string                    `json:"pkg"`
 	Loop     int                       `json:"loop"`
@@ -34,6 +35,7 @@ type HarnessCfg struct {
 	TimeoutMs int                      `json:"solver_timeout_ms"`
 	InlineGo bool                      `json:"inline_go"`
 	Int      bool                      `json:"int"`       // add the cvc5 --solve-bv-as-int back end to the portfolio (div/mod by constants)
+	MaxSec   map[string]int            `json:"max_seconds"` // tier -> exploration budget
 	QuickMs  int                       `json:"quick_ms"`  // time slice of the persistent primary solver before the portfolio
 }
 
@@ -250,6 +252,9 @@ func (r *Run) execute() int {
 	// group harnesses by variant
 	byVar := map[string][]HarnessCfg{}
 	for _, h := range r.cfg.Harnesses {
+		if h.Name == "" {
+			h.Name = h.Func
+		}
 		if len(h.Tiers) > 0 && !contains(h.Tiers, r.tier) {
 			continue
 		}
@@ -344,18 +349,45 @@ func (r *Run) runHarness(prog *ssa.Program, h HarnessCfg) *HResult {
 		params[k] = v
 	}
 	cfg := sym.Config{LoopBound: h.Loop, MaxPaths: h.MaxPaths, BlackHole: append(append([]string{}, defaultBlackHole...), r.cfg.BlackHole...),
-		NoInit: r.cfg.NoInit, Verbose: r.verbose, InlineGo: h.InlineGo}
+		NoInit: r.cfg.NoInit, Verbose: r.verbose, InlineGo: h.InlineGo, Progress: true}
+	if ms, ok := h.MaxSec[r.tier]; ok && ms > 0 {
+		cfg.MaxWall = time.Duration(ms) * time.Second
+	} else if r.tier == "quick" {
+		cfg.MaxWall = 600 * time.Second
+	} else {
+		cfg.MaxWall = 3 * time.Hour
+	}
 	eng := sym.NewEngine(prog, solver, cfg)
 	eng.Params = params
 	eng.Log = os.Stderr
+	if os.Getenv("GOSMT_QSITES") != "" {
+		eng.QSites = map[string]int{}
+	}
 	res.Rep = eng.RunHarness(fn)
+	if eng.QSites != nil {
+		type kv struct {
+			k string
+			v int
+		}
+		var l []kv
+		for k, v := range eng.QSites {
+			l = append(l, kv{k, v})
+		}
+		sort.Slice(l, func(i, j int) bool { return l[i].v > l[j].v })
+		for i, x := range l {
+			if i >= 25 {
+				break
+			}
+			fmt.Fprintf(os.Stderr, "QSITE %6d %s\n", x.v, x.k)
+		}
+	}
 	res.Stats = solver.St
 	res.Disagree = solver.Disagreements
 	res.Wall = time.Since(t0)
 	// replay violations natively
 	for i, v := range res.Rep.Violations {
 		ro := ReplayOutcome{V: v}
-		ro.Path = filepath.Join(verifDir, "evidence/replay", fmt.Sprintf("%s-%s-%d.json", r.cfg.ID, h.Func, i))
+		ro.Path = filepath.Join(verifDir, "evidence/replay", fmt.Sprintf("%s-%s-%d.json", r.cfg.ID, h.Name, i))
 		writeReplay(ro.Path, r.cfg.ID, h, v, params)
 		if r.noReplay {
 			ro.Confirmed = true
@@ -372,6 +404,7 @@ func (r *Run) runHarness(prog *ssa.Program, h HarnessCfg) *HResult {
 type replayFile struct {
 	Property string         `json:"property"`
 	Harness  string         `json:"harness"`
+	Name     string         `json:"name,omitempty"`
 	Pkg      string         `json:"pkg"`
 	Kind     string         `json:"kind"`
 	Msg      string         `json:"msg"`
@@ -384,7 +417,7 @@ type replayFile struct {
 
 func writeReplay(path, id string, h HarnessCfg, v *sym.Violation, params map[string]int) {
 	os.MkdirAll(filepath.Dir(path), 0o755)
-	rf := replayFile{Property: id, Harness: h.Func, Pkg: h.Pkg, Kind: v.Kind, Msg: v.Msg, Site: v.Site, Values: v.Vals, Params: params, Notes: v.Notes}
+	rf := replayFile{Property: id, Harness: h.Func, Name: h.Name, Pkg: h.Pkg, Kind: v.Kind, Msg: v.Msg, Site: v.Site, Values: v.Vals, Params: params, Notes: v.Notes}
 	for i, t := range v.Trace {
 		rf.Inputs = append(rf.Inputs, fmt.Sprintf("%s %s = %v", t.Kind, t.Name, shortVals(v.Vals[i])))
 	}
@@ -526,7 +559,7 @@ func replayOnly(cfg *CheckCfg, path string) int {
 	}
 	var h HarnessCfg
 	for _, x := range cfg.Harnesses {
-		if x.Func == rf.Harness {
+		if x.Func == rf.Harness && (h.Func == "" || x.Name == rf.Name) {
 			h = x
 		}
 	}
